@@ -505,6 +505,12 @@ pub fn drive_enc(spec: &EncSpec, mode: EncMode, source: &mut dyn OpSource, mut p
                 if run.finished {
                     continue;
                 }
+                if crate::sink::peek_every_call() {
+                    if let Some(f) = peek_fn.as_mut() {
+                        let v = f(&encs[0], 255);
+                        run.viols.extend(v);
+                    }
+                }
                 let end = bounds[visible];
                 let src: Src = if spec.form16 { Src::U16(&s16[consumed..end]) } else { Src::U8(&s8[consumed..end]) };
                 let src_units = end - consumed;
